@@ -50,6 +50,7 @@ type rpcPlan struct {
 	Start    time.Duration `json:"start"`
 	Deadline time.Duration `json:"deadline"` // relative to Start; <0 = none; 0 = already expired
 	Cancel   time.Duration `json:"cancel"`   // relative to Start; <=0 = none
+	Ctx      ctxPlan       `json:"ctx"`
 }
 
 type scenario struct {
@@ -83,7 +84,7 @@ func genClient(rng *rand.Rand, i int) scenario {
 	sc := scenario{BP: blockingPoints[i%len(blockingPoints)]}
 	n := 1 + rng.Intn(5)
 	for k := 0; k < n; k++ {
-		p := rpcPlan{Unary: rng.Intn(2) == 0, WFR: rng.Intn(2) == 0, Deadline: -1}
+		p := rpcPlan{Unary: rng.Intn(2) == 0, WFR: rng.Intn(2) == 0, Deadline: -1, Ctx: genCtxPlan(rng)}
 		if rng.Intn(3) == 0 {
 			p.Start = genDur(rng, time.Minute)
 		}
@@ -173,8 +174,10 @@ type event struct {
 
 const retryMC = `"retryPolicy":{"maxAttempts":4,"initialBackoff":"50s","maxBackoff":"50s","backoffMultiplier":1,"retryableStatusCodes":["UNAVAILABLE"]}`
 
-func runClient(sc scenario, viol func(key, id, msg string)) *result {
+func runClient(sc scenario, h *hb, viol0 func(key, id, msg string)) *result {
 	res := &result{counters: map[string]int64{}, sigs: map[string]bool{}}
+	nviol := 0
+	viol := func(key, id, msg string) { nviol++; viol0(key, id, msg) }
 	clk := e2e.NewClock()
 	nw := e2e.NewNet()
 	rawCh := nw.AddRaw("p0")
@@ -255,15 +258,11 @@ func runClient(sc scenario, viol func(key, id, msg string)) *result {
 	}
 	var wg sync.WaitGroup
 	launch := func(rid string, p rpcPlan, r *rpcRec) {
-		ctx := metadata.AppendToOutgoingContext(context.Background(), "x-rid", rid)
-		var cancel context.CancelFunc
 		mu.Lock()
 		r.started, r.startAt = true, clk.Now()
+		ctx, cancel := buildCtx(metadata.AppendToOutgoingContext(context.Background(), "x-rid", rid), p.Ctx, p.Deadline)
 		if p.Deadline >= 0 {
-			ctx, cancel = context.WithTimeout(ctx, p.Deadline)
 			r.deadlineAt = r.startAt + p.Deadline
-		} else {
-			ctx, cancel = context.WithCancel(ctx)
 		}
 		r.cancel = cancel
 		mu.Unlock()
@@ -364,10 +363,12 @@ func runClient(sc scenario, viol func(key, id, msg string)) *result {
 		}
 		fed += len(log)
 	}
-	audit := func(label string) {
-		synctest.Wait()
+	// judge evaluates the oracle at a quiescent instant.  It normally runs in
+	// the bubble after synctest.Wait; when the guard finds the bubble wedged
+	// (wedge != "") it runs from outside at the frozen virtual instant.
+	var jmu sync.Mutex
+	judge := func(label string, now time.Duration, wedge string) {
 		feed()
-		now := clk.Now()
 		res.counters["quiescent_audits"]++
 		mu.Lock()
 		defer mu.Unlock()
@@ -378,6 +379,12 @@ func runClient(sc scenario, viol func(key, id, msg string)) *result {
 			rid := strconv.Itoa(i)
 			// which event must end it?
 			byDeadline := r.deadlineAt >= 0 && (!r.cancelled || r.deadlineAt <= r.cancelAt)
+			if !r.finished && wedge != "" {
+				if r.deadlineAt >= 0 && now >= r.deadlineAt || r.cancelled {
+					viol("ctx-not-propagated:"+wedge+":"+sc.BP, rid, fmt.Sprintf("%s at %v: rpc %d (%+v) parked at %q has not returned although its context ended (deadline %v, cancelled=%v at %v); nothing in the bubble can make it return at this instant", label, now, i, sc.RPCs[i], sc.BP, r.deadlineAt, r.cancelled, r.cancelAt))
+				}
+				continue
+			}
 			if !r.finished {
 				if r.deadlineAt >= 0 && now >= r.deadlineAt {
 					viol("deadline-overrun:"+sc.BP, rid, fmt.Sprintf("after %q at %v: rpc %d (%+v) parked at %q is still running although its deadline %v has passed", label, now, i, sc.RPCs[i], sc.BP, r.deadlineAt))
@@ -441,9 +448,33 @@ func runClient(sc scenario, viol func(key, id, msg string)) *result {
 			if end == "cancel" {
 				d = sc.RPCs[i].Cancel
 			}
-			res.sigs[fmt.Sprintf("%s/%s/%s/%s", sc.BP, kind, end, bucket(d))] = true
+			cc := "plain"
+			if sc.RPCs[i].Ctx != (ctxPlan{}) {
+				cc = "cause"
+				res.counters["endings_with_custom_cause_context"]++
+			}
+			res.sigs[fmt.Sprintf("%s/%s/%s/%s/%s", sc.BP, kind, end, bucket(d), cc)] = true
 		}
 	}
+	audit := func(label string) {
+		h.beat(clk.Now())
+		synctest.Wait()
+		jmu.Lock()
+		judge(label, clk.Now(), "")
+		jmu.Unlock()
+		h.beat(clk.Now())
+	}
+	h.setWedge(func(kind, fn string) bool {
+		jmu.Lock()
+		defer jmu.Unlock()
+		before := nviol
+		w := "busy-loop"
+		if kind == "mutex" {
+			w = "stuck-behind-mutex"
+		}
+		judge("bubble wedged ("+kind+" in "+fn+")", time.Duration(h.virtNow.Load()), w)
+		return nviol > before
+	})
 	// timeline
 	var evs []event
 	for i, p := range sc.RPCs {
@@ -537,6 +568,7 @@ type srvPlan struct {
 	Start    time.Duration `json:"start"`
 	Deadline time.Duration `json:"deadline"` // <0 none
 	Cancel   time.Duration `json:"cancel"`   // <=0 none
+	Ctx      ctxPlan       `json:"ctx"`
 }
 
 type srvScenario struct {
@@ -586,7 +618,7 @@ func genServer(rng *rand.Rand) srvScenario {
 	var sc srvScenario
 	n := 1 + rng.Intn(5)
 	for k := 0; k < n; k++ {
-		p := srvPlan{Unary: rng.Intn(2) == 0, Deadline: -1}
+		p := srvPlan{Unary: rng.Intn(2) == 0, Deadline: -1, Ctx: genCtxPlan(rng)}
 		if rng.Intn(2) == 0 {
 			p.Start = time.Duration(rng.Int63n(int64(10 * time.Second)))
 		}
@@ -622,7 +654,7 @@ type hrec struct {
 	attempts int
 }
 
-func runServer(sc srvScenario, viol func(key, id, msg string)) *result {
+func runServer(sc srvScenario, guard *hb, viol func(key, id, msg string)) *result {
 	res := &result{counters: map[string]int64{}, sigs: map[string]bool{}}
 	t0 := time.Now()
 	now := func() time.Duration { return time.Since(t0) }
@@ -668,15 +700,11 @@ func runServer(sc srvScenario, viol func(key, id, msg string)) *result {
 	var wg sync.WaitGroup
 	launch := func(i int) {
 		p, r := sc.RPCs[i], rpcs[i]
-		ctx := metadata.AppendToOutgoingContext(context.Background(), "x-rid", strconv.Itoa(i))
-		var cancel context.CancelFunc
 		mu.Lock()
 		r.started, r.startAt = true, now()
+		ctx, cancel := buildCtx(metadata.AppendToOutgoingContext(context.Background(), "x-rid", strconv.Itoa(i)), p.Ctx, p.Deadline)
 		if p.Deadline >= 0 {
-			ctx, cancel = context.WithTimeout(ctx, p.Deadline)
 			r.deadlineAt = r.startAt + p.Deadline
-		} else {
-			ctx, cancel = context.WithCancel(ctx)
 		}
 		r.cancel = cancel
 		mu.Unlock()
@@ -710,7 +738,9 @@ func runServer(sc srvScenario, viol func(key, id, msg string)) *result {
 	}
 	judgedDL := make([]bool, len(sc.RPCs))
 	audit := func(label string) {
+		guard.beat(now())
 		synctest.Wait()
+		guard.beat(now())
 		T := now()
 		res.counters["quiescent_audits"]++
 		mu.Lock()
@@ -919,7 +949,7 @@ func genWire(rng *rand.Rand) []wstep {
 	return out
 }
 
-func runServerWire(steps []wstep, viol func(key, id, msg string)) *result {
+func runServerWire(steps []wstep, guard *hb, viol func(key, id, msg string)) *result {
 	res := &result{counters: map[string]int64{}, sigs: map[string]bool{}}
 	t0 := time.Now()
 	now := func() time.Duration { return time.Since(t0) }
@@ -982,7 +1012,9 @@ func runServerWire(steps []wstep, viol func(key, id, msg string)) *result {
 		synctest.Wait()
 	}
 	audit := func(label string) {
+		guard.beat(now())
 		synctest.Wait()
+		guard.beat(now())
 		T := now()
 		res.counters["quiescent_audits"]++
 		mu.Lock()
@@ -1127,9 +1159,16 @@ func TestVerifC22(t *testing.T) {
 		sc := genClient(r.Rand("client", i), i)
 		r.Progress("client", i, sc.BP)
 		var res *result
-		synctest.Test(t, func(t *testing.T) { res = runClient(sc, mkViol("client", i, sc)) })
+		ok := runBubbled(t, r, "client", i, sc, func(h *hb) { res = runClient(sc, h, mkViol("client", i, sc)) })
 		r.Eval(1)
 		r.Count("client_cases_"+sc.BP, 1)
+		if !ok {
+			r.Count("bubbles_abandoned", 1)
+			if abandoned.Load() >= 2 {
+				break
+			}
+			continue
+		}
 		flush(r, res)
 		if i < 2 {
 			r.Sample(map[string]any{"family": "client", "scenario": sc, "counters": res.counters})
@@ -1146,8 +1185,12 @@ func TestVerifC22(t *testing.T) {
 		sc := genServer(r.Rand("server", i))
 		r.Progress("server", i, fmt.Sprintf("rpcs=%d", len(sc.RPCs)))
 		var res *result
-		synctest.Test(t, func(t *testing.T) { res = runServer(sc, mkViol("server", i, sc)) })
+		ok := runBubbled(t, r, "server", i, sc, func(h *hb) { res = runServer(sc, h, mkViol("server", i, sc)) })
 		r.Eval(1)
+		if !ok {
+			r.Count("bubbles_abandoned", 1)
+			break
+		}
 		flush(r, res)
 		if i < 2 {
 			r.Sample(map[string]any{"family": "server", "scenario": sc, "counters": res.counters})
@@ -1164,11 +1207,34 @@ func TestVerifC22(t *testing.T) {
 		steps := genWire(r.Rand("server-wire", i))
 		r.Progress("server-wire", i, fmt.Sprintf("streams=%d", len(steps)))
 		var res *result
-		synctest.Test(t, func(t *testing.T) { res = runServerWire(steps, mkViol("server-wire", i, steps)) })
+		ok := runBubbled(t, r, "server-wire", i, steps, func(h *hb) { res = runServerWire(steps, h, mkViol("server-wire", i, steps)) })
 		r.Eval(1)
+		if !ok {
+			r.Count("bubbles_abandoned", 1)
+			break
+		}
 		flush(r, res)
 		if i < 1 {
 			r.Sample(map[string]any{"family": "server-wire", "steps": steps, "counters": res.counters})
+		}
+	}
+	n = r.N(240, 4800) / div
+	for i := 0; i < n && abandoned.Load() < 2; i++ {
+		if !r.Want("after-retry", i) || only != "" && only != "after-retry" {
+			continue
+		}
+		sc := genAfterRetry(r.Rand("after-retry", i), i)
+		r.Progress("after-retry", i, fmt.Sprintf("%s/%s/%s", sc.Peer, sc.Trigger, sc.Park))
+		var res *result
+		ok := runBubbled(t, r, "after-retry", i, sc, func(h *hb) { res = runAfterRetry(sc, h, mkViol("after-retry", i, sc)) })
+		r.Eval(1)
+		if !ok {
+			r.Count("bubbles_abandoned", 1)
+			continue
+		}
+		flush(r, res)
+		if r.Violations() >= 3 {
+			break
 		}
 	}
 	for i, v := range []string{"cancel", "deadline"} {
@@ -1185,7 +1251,7 @@ func TestVerifC22(t *testing.T) {
 	}
 	r.Finish(vlib.Spec{
 		Level: "exploration",
-		Rule:  "client: 1-5 unary/streaming RPCs parked at one of 13 blocking points (resolver wait; pick while connecting / transient failure with wait-for-ready / picker without SubConn / SubConn not READY; stream quota 0 and 1-taken; write quota with a zero window; header wait via RecvMsg and via Header(); receive after headers and mid-message; retry backoff) with deadlines and cancel instants from 1 ns to hours (also already-expired), judged at every event instant + quiescence in virtual time: DEADLINE_EXCEEDED exactly at the deadline, CANCELLED exactly at the cancel, nothing still running past either, nothing ending without cause, RST_STREAM on the wire for streams that had been opened. server: real client and real server, 1-5 RPCs with timeouts around every grpc-timeout unit boundary: handler deadline in [client deadline, + one encoding unit), handler context done exactly at the client's cancel / deadline / its own deadline and not before. server-wire: scripted client sending literal grpc-timeout values, then RST_STREAM / connection close / nothing: handler deadline exact, context done at exactly that instant. replay-blocked (directed, real time, verdict from goroutine-stack facts only): a retry attempt parked on the write quota while replaying buffered messages must end when the context is cancelled / expires. non-trivial = an RPC ending or a handler context was judged; distinct = (blocking point, kind, ending, magnitude) and (unit, rounded) / (cause, context error) classes",
+		Rule:  "client: 1-5 unary/streaming RPCs parked at one of 13 blocking points (resolver wait; pick while connecting / transient failure with wait-for-ready / picker without SubConn / SubConn not READY; stream quota 0 and 1-taken; write quota with a zero window; header wait via RecvMsg and via Header(); receive after headers and mid-message; retry backoff) with deadlines and cancel instants from 1 ns to hours (also already-expired), judged at every event instant + quiescence in virtual time: DEADLINE_EXCEEDED exactly at the deadline, CANCELLED exactly at the cancel, nothing still running past either, nothing ending without cause, RST_STREAM on the wire for streams that had been opened. server: real client and real server, 1-5 RPCs with timeouts around every grpc-timeout unit boundary: handler deadline in [client deadline, + one encoding unit), handler context done exactly at the client's cancel / deadline / its own deadline and not before. server-wire: scripted client sending literal grpc-timeout values, then RST_STREAM / connection close / nothing: handler deadline exact, context done at exactly that instant. after-retry: streaming RPC with a retry policy whose first attempt is answered Trailers-Only UNAVAILABLE or REFUSED_STREAM, parked on its SECOND attempt (SendMsg on flow control with small messages, header wait, receive, application in no call) against a scripted peer (RST_STREAM judged) or a real server (handler context judged), then cancelled / expired. About half of all RPC contexts carry a custom cause (WithCancelCause / WithTimeoutCause / WithDeadlineCause, possibly on an ancestor). Every bubble runs under an outside guard that turns a spinning or mutex-wedged bubble into a verdict from goroutine-stack facts. replay-blocked (directed, real time, verdict from goroutine-stack facts only): a retry attempt parked on the write quota while replaying buffered messages must end when the context is cancelled / expires. non-trivial = an RPC ending or a handler context was judged; distinct = (blocking point, kind, ending, magnitude) and (unit, rounded) / (cause, context error) classes",
 		Assumptions: []string{"in-memory connections have zero virtual latency, so the handler is entered at the instant the client sends (counted: handler_entered_at_send_instant)",
 			"the upper bound on the handler deadline uses the finest unit in which the remaining time fits 8 digits (PROTOCOL-HTTP2); it is judged only for RPCs that did not wait for stream quota",
 			"RPCs parked while the channel is connecting or in transient failure are wait-for-ready (a fail-fast RPC legitimately fails UNAVAILABLE there); fail-fast RPCs are parked by scripted pickers"},
